@@ -58,6 +58,7 @@ def run(ctx):
     cases += hostile.same_name_alias_cases()
     cases += hostile.shared_object_cases()
     cases += hostile.special_key_cases()
+    cases += hostile.line_break_and_odd_value_cases()
     for c in cases:
         valcorr.run_real(c)
         valcorr.prepare(c)
